@@ -86,13 +86,13 @@ def rand_do(rnd, sp):
         return {"op": "Do", "drv": "c11", "case": {"mode": sp, "a": rnd.choice([{"y": 1}, {"y": 2, "mo": 1}, {"y": -1, "d": 3}, {"mo": 12}]),
                                                      "b": rnd.choice([{"mo": 12}, {"d": 360}, {"d": 365}, {"d": 366}, {"y": 1}]),
                                                      "c": c11.rand_dur(rnd), "n": rnd.randint(-3, 3)}}
-    if rnd.random() < 0.1:
+    if rnd.random() < 0.18:
         # truncated additions: the search for the next 29th / day 366 / week 53 depends on the mode's month and year lengths
         from harness.drivers import c20
         p = gen.rand_point(rnd, m, wide=False, whole=True, allow24=False, years=[1900, 1999, 2000, 2020, 2021, 2023], zones=[(0, 0)])
         p = dict(p, prec="hms", mi=max(p["mi"], 0), ss=max(p["ss"], 0))
-        if rnd.random() < 0.5 and p["rep"] == "cal":
-            p.update(a=2, b=rnd.choice([1, 27, 28]))
+        if rnd.random() < 0.6:
+            p.update(rep="cal", a=2, b=rnd.choice([1, 27, 28]))       # February: the 29th exists or not, by mode and year
         from harness import refcal as R_
         while True:
             t = c20.rand_trunc(rnd, m, p)
